@@ -220,6 +220,7 @@ fn eval(case: &Case, acc: &Acc) -> Vec<Violation> {
         }
     });
     acc.distinct(&case.history);
+    acc.fallback(|| json!({"history": case.history}));
     if acc.want_sample() && case.history.len() >= 2 {
         acc.sample(json!({"history": case.history}));
     }
